@@ -12,6 +12,7 @@ use std::collections::HashMap;
 use xot::{NameId, NamespaceId, Node, PrefixId, Value, Xot};
 
 /// everything that has been registered in the Xot, in id order (the harness registers through this wrapper only)
+#[derive(Clone)]
 pub struct Reg {
     pub nss: Vec<(String, NamespaceId)>,
     pub prefixes: Vec<(String, PrefixId)>,
